@@ -108,12 +108,15 @@ void matrixLaws(Rng& rng, int variant) {
 	Matrix3 R1 = RotVecToMat(randRotVec(rng, 3.0f)), R2 = RotVecToMat(randRotVec(rng, 3.0f));
 	Matrix3 D(rng.range(0.2f, 5.0f), 0, 0, 0, rng.range(0.2f, 5.0f), 0, 0, 0, rng.range(0.2f, 5.0f) * (variant % 2 ? -1.0f : 1.0f));
 	Matrix3 M = R1 * D * R2;
+	// a uniform factor does not change the conditioning, only the determinant (k^3): units / world-scale conversions
+	float k = variant % 3 == 2 ? std::exp(rng.range(std::log(0.02f), std::log(50.0f))) : 1.0f;
+	M = M * k;
 	Matrix3 inv;
 	bool ok = M.Invert(&inv);
-	if (!ok) bad("matrix3-invert", fmt("Invert refused a matrix with det %g", M.Determinant()));
+	if (!ok) bad("matrix3-invert", fmt("Invert refused a well-conditioned matrix (singular values within [0.2,5] x %g, det %g)", k, M.Determinant()));
 	else {
 		if (dist(M * inv, Matrix3()) > 5e-5f || dist(inv * M, Matrix3()) > 5e-5f) bad("matrix3-invert", fmt("M*inv err=%g det=%g", dist(M * inv, Matrix3()), M.Determinant()));
-		if (dist(M.Inverse(), inv) > 1e-6f) bad("matrix3-inverse-vs-invert", "Inverse() != Invert()");
+		if (dist(M.Inverse(), inv) > 1e-6f * (1.0f + maxAbs(inv))) bad("matrix3-inverse-vs-invert", "Inverse() != Invert()");
 	}
 	Matrix3 zero(0, 0, 0, 0, 0, 0, 0, 0, 0);
 	Matrix3 keep(1, 2, 3, 4, 5, 6, 7, 8, 9), out = keep;
